@@ -90,7 +90,8 @@ class SourceTree:
             from . import canon, inline
             ref = canon.load_reference()
             self.renames = canon.canonicalize(self._asts, ref)
-            self.inlined = inline.outline_vanished_helpers(self._asts, ref)
+            self.inlined = inline.restore_moved_methods(self._asts, ref)
+            self.inlined += inline.outline_vanished_helpers(self._asts, ref)
             self.inlined += inline.inline_new_helpers(self._asts, ref)
             self.inlined += inline.inline_new_constants(self._asts, ref)
             self.inlined += inline.unroll_literal_loops(self._asts, ref)
